@@ -70,6 +70,111 @@ theorem extremum_mem (better : F64 → F64 → Bool) (acc : F64) (vs : List Val)
         · simp [hb] at h1; exact Or.inl h1
       · exact Or.inr ⟨w, by simp [hw], hw'⟩
 
+/-! ## the result is an extreme: nothing beats it -/
+
+theorem rat_lt_trans {a b c : Rat} (h1 : a < b) (h2 : b < c) : a < c := by
+  refine Rat.lt_of_le_of_ne (Rat.le_trans (Rat.le_of_lt h1) (Rat.le_of_lt h2)) ?_
+  intro e; subst e
+  exact absurd (Rat.le_of_lt h1) (Rat.not_le.mpr h2)
+
+/-- `<` on doubles is irreflexive and transitive (NaN compares false with everything) -/
+theorem lt_irrefl (x : F64) : F64.lt x x = false := by
+  cases x with
+  | nan => rfl
+  | inf a => cases a <;> rfl
+  | fin n m e => simp [F64.lt, Rat.lt_irrefl]
+
+theorem lt_trans (x y z : F64) (h1 : F64.lt x y = true) (h2 : F64.lt y z = true) : F64.lt x z = true := by
+  cases x <;> cases y <;> cases z <;> simp_all [F64.lt]
+  rename_i n1 m1 e1 n2 m2 e2 n3 m3 e3
+  exact rat_lt_trans h1 h2
+
+/-- the fold only ever replaces its accumulator by something strictly better -/
+theorem extremum_improves (better : F64 → F64 → Bool)
+    (htr : ∀ x y z, better x y = true → better y z = true → better x z = true)
+    (acc : F64) (vs : List Val) (m : F64) (h : extremum better acc vs = .ok m) :
+    m = acc ∨ better m acc = true := by
+  induction vs generalizing acc with
+  | nil => simp [extremum] at h; exact Or.inl h.symm
+  | cons v vs ih =>
+    unfold extremum at h
+    cases hv : toNumber v with
+    | none => simp [hv] at h
+    | some x =>
+      simp only [hv] at h
+      by_cases hb : better x acc = true
+      · simp only [hb, if_true] at h
+        rcases ih _ h with rfl | h2
+        · exact Or.inr hb
+        · exact Or.inr (htr _ _ _ h2 hb)
+      · simp only [hb, Bool.false_eq_true, if_false] at h
+        exact ih _ h
+
+/-- whatever order `better` is, as long as it is irreflexive and transitive: the fold returns a
+    value that no argument (and not the seed) beats -/
+theorem extremum_optimal (better : F64 → F64 → Bool) (hirr : ∀ x, better x x = false)
+    (htr : ∀ x y z, better x y = true → better y z = true → better x z = true)
+    (acc : F64) (vs : List Val) (m : F64) (h : extremum better acc vs = .ok m) :
+    better acc m = false ∧ ∀ v ∈ vs, ∀ x, toNumber v = some x → better x m = false := by
+  induction vs generalizing acc with
+  | nil => simp [extremum] at h; subst h; exact ⟨hirr _, by simp⟩
+  | cons v vs ih =>
+    have himp := extremum_improves better htr acc (v :: vs) m h
+    unfold extremum at h
+    cases hv : toNumber v with
+    | none => simp [hv] at h
+    | some x =>
+      simp only [hv] at h
+      by_cases hb : better x acc = true
+      · simp only [hb, if_true] at h
+        obtain ⟨hx, hrest⟩ := ih _ h
+        refine ⟨?_, fun w hw y hy => ?_⟩
+        · cases hc : better acc m with
+          | false => rfl
+          | true => rw [htr _ _ _ hb hc] at hx; cases hx
+        · rcases List.mem_cons.mp hw with rfl | hw'
+          · rw [hv] at hy; cases hy; exact hx
+          · exact hrest w hw' y hy
+      · simp only [hb, Bool.false_eq_true, if_false] at h
+        obtain ⟨ha, hrest⟩ := ih _ h
+        refine ⟨ha, fun w hw y hy => ?_⟩
+        rcases List.mem_cons.mp hw with rfl | hw'
+        · rw [hv] at hy; cases hy
+          cases hc : better x m with
+          | false => rfl
+          | true =>
+            rcases himp with rfl | h2
+            · exact absurd hc hb
+            · exact absurd (htr _ _ _ hc h2) hb
+        · exact hrest w hw' y hy
+
+/-- `সর্বনিম্ন`: no argument is smaller than the result; `সর্বোচ্চ`: none is greater — for all arguments,
+    NaN included (it compares false with everything) -/
+theorem min_least (acc : F64) (vs : List Val) (m : F64) (h : extremum F64.lt acc vs = .ok m) :
+    F64.lt acc m = false ∧ ∀ v ∈ vs, ∀ x, toNumber v = some x → F64.lt x m = false :=
+  extremum_optimal F64.lt lt_irrefl lt_trans acc vs m h
+
+theorem max_greatest (acc : F64) (vs : List Val) (m : F64) (h : extremum F64.gt acc vs = .ok m) :
+    F64.lt m acc = false ∧ ∀ v ∈ vs, ∀ x, toNumber v = some x → F64.lt m x = false :=
+  extremum_optimal F64.gt (fun x => lt_irrefl x) (fun x y z h1 h2 => lt_trans z y x h2 h1) acc vs m h
+
+/-- the array form and the list form agree: `সর্বনিম্ন([a, b, c])` is `সর্বনিম্ন(a, b, c)` (unless the list is itself a
+    single array, which the list form would flatten again) -/
+theorem list_and_array_forms_agree (better : F64 → F64 → Bool) (what : String) (σ : Store) (r : Nat) (xs : List Val)
+    (hr : σ.arrs[r]? = some xs) (hne : xs ≠ []) (hflat : ∀ r', xs ≠ [.arr r']) :
+    minmax better what [.arr r] σ = minmax better what xs σ := by
+  have h1 : minmaxArgs σ [.arr r] = xs := by simp [minmaxArgs, hr]
+  have h2 : minmaxArgs σ xs = xs := by
+    unfold minmaxArgs
+    split
+    · rename_i r' ; exact absurd rfl (hflat r')
+    · rfl
+  cases xs with
+  | nil => exact absurd rfl hne
+  | cons a as =>
+    unfold minmax
+    simp only [h1, h2]
+
 /-- an argument that is not a number makes min / max fail -/
 theorem extremum_type_error (better : F64 → F64 → Bool) (acc : F64) (vs : List Val) (v : Val)
     (hv : v ∈ vs) (hn : toNumber v = none) : ∃ m, extremum better acc vs = .error m := by
